@@ -209,7 +209,7 @@ static void h_op(void)
     if (!SSI) { h_out("bad-op"); return; }
     status = esl_ssi_FindNumber(SSI, h_argi("i", 0), &fh, &roff, &doff, &L, &pkey);
     if (status == eslOK) h_out("ok fh=%u r=%lld d=%lld L=%lld key=%s", (unsigned) fh, (long long) roff, (long long) doff, (long long) L,
-                               h_hex(pkey, (int64_t) strnlen(pkey, SSI->plen)));
+                               h_hex(pkey, (int64_t) strlen(pkey)));   /* a caller's view: the returned key is a C string (terminated by the library even when the field is not) */
     else                 h_out("%s", h_status(status));
     free(pkey);
   }
@@ -227,7 +227,7 @@ static void h_op(void)
     if (!SSI) { h_out("bad-op"); return; }
     status = esl_ssi_FileInfo(SSI, fh, &name, &fmt);
     if (status == eslOK) h_out("ok name=%s fmt=%d flags=%" PRIu32 " bpl=%" PRIu32 " rpl=%" PRIu32,
-                               h_hex(name, (int64_t) strnlen(name, SSI->flen)), fmt, SSI->fileflags[fh], SSI->bpl[fh], SSI->rpl[fh]);
+                               h_hex(name, (int64_t) strlen(name)), fmt, SSI->fileflags[fh], SSI->bpl[fh], SSI->rpl[fh]);   /* likewise: a C string */
     else                 h_out("%s", h_status(status));
   }
   else if (!strcmp(op, "close")) {
